@@ -76,6 +76,9 @@ var (
 )
 
 func cached[T any](key string, mk func() T) T {
+	if scope != nil && key[1] != 'p' && key[1] != 'q' { // a history has its own library key objects; sp/ep/sq/eq are hook-side model values
+		return scoped("sm9/"+key, mk)
+	}
 	sm9Mu.Lock()
 	if v, ok := sm9Cache[key]; ok {
 		sm9Mu.Unlock()
@@ -298,14 +301,17 @@ func sm9SignOp() *opImpl {
 		priv := sm9SignUser(m, u)
 		var hv *big.Int
 		var S, sig []byte
+		a := newArgs(c)
+		msg := a.in(msgOf(c))
 		switch c.Var {
 		case 0:
-			hv, S, err = sm9.Sign(rd, priv, msgOf(c))
+			hv, S, err = sm9.Sign(rd, priv, msg)
 		case 1:
-			sig, err = priv.Sign(rd, msgOf(c), nil)
+			sig, err = priv.Sign(rd, msg, nil)
 		default:
-			sig, err = sm9.SignASN1(rd, priv, msgOf(c))
+			sig, err = sm9.SignASN1(rd, priv, msg)
 		}
+		out.argErr = a.finish()
 		if hv != nil || S != nil || sig != nil {
 			out.leak = "signature"
 		}
@@ -378,11 +384,14 @@ func sm9WrapOp() *opImpl {
 		m, u := sm9Key(c)
 		pub := sm9EncMasterKey(m).PublicKey()
 		var key, ct []byte
+		a := newArgs(c)
+		uid := a.in(sm9UIDs[u])
+		defer func() { out.argErr = a.finish() }()
 		switch c.Var {
 		case 0:
-			key, ct, err = sm9.WrapKey(rd, pub, sm9UIDs[u], hidEnc, c.MsgLen)
+			key, ct, err = sm9.WrapKey(rd, pub, uid, hidEnc, c.MsgLen)
 		case 1:
-			key, ct, err = pub.WrapKey(rd, sm9UIDs[u], hidEnc, c.MsgLen)
+			key, ct, err = pub.WrapKey(rd, uid, hidEnc, c.MsgLen)
 			if err == nil {
 				in := cryptobyte.String(ct)
 				if !in.ReadASN1BitStringAsBytes(&ct) || !in.Empty() {
@@ -391,7 +400,7 @@ func sm9WrapOp() *opImpl {
 			}
 		default:
 			var der []byte
-			der, err = pub.WrapKeyASN1(rd, sm9UIDs[u], hidEnc, c.MsgLen)
+			der, err = pub.WrapKeyASN1(rd, uid, hidEnc, c.MsgLen)
 			if der != nil {
 				out.leak = "key package"
 			}
@@ -452,11 +461,14 @@ func sm9EncryptOp() *opImpl {
 		m, u := sm9Key(c)
 		pub := sm9EncMasterKey(m).PublicKey()
 		var ct []byte
+		a := newArgs(c)
+		uid, msg := a.in(sm9UIDs[u]), a.in(msgOf(c))
 		if c.Var == 5 {
-			ct, err = sm9.EncryptASN1(rd, pub, sm9UIDs[u], hidEnc, msgOf(c), opts[c.Var])
+			ct, err = sm9.EncryptASN1(rd, pub, uid, hidEnc, msg, opts[c.Var])
 		} else {
-			ct, err = sm9.Encrypt(rd, pub, sm9UIDs[u], hidEnc, msgOf(c), opts[c.Var])
+			ct, err = sm9.Encrypt(rd, pub, uid, hidEnc, msg, opts[c.Var])
 		}
+		out.argErr = a.finish()
 		if ct != nil {
 			out.leak = "ciphertext"
 		}
@@ -553,11 +565,17 @@ func sm9KexOp(name string, respond bool) *opImpl {
 	o.run = func(c *opCase, rd io.Reader) (out outcome, err error) {
 		m, u := sm9Key(c)
 		peer := (u + 1) % len(sm9UIDs)
-		ke := sm9EncUser(m, u, hidKex).NewKeyExchange(sm9UIDs[u], sm9UIDs[peer], 16, c.Var == 1)
+		// the uid slices stay untouched: the SM9 KeyExchange object documents no copy of them (C10's matter)
+		ke := scoped(fmt.Sprint("sm9ke/", c.Key, c.Var, respond), func() sm9.KeyExchange {
+			return sm9EncUser(m, u, hidKex).NewKeyExchange(sm9UIDs[u], sm9UIDs[peer], 16, c.Var == 1)
+		})
 		var R, tag []byte
 		if respond {
-			rA := hook.Gen1.MarshalUncompressed() // any valid point serves as the initiator's R_A
+			a := newArgs(c)
+			rA := a.in(hook.Gen1.MarshalUncompressed()) // any valid point serves as the initiator's R_A
 			R, tag, err = ke.RespondKeyExchange(rd, hidKex, rA)
+			out.argErr = a.finish() // the object keeps R_A for ConfirmInitiator, which is not part of this property
+
 		} else {
 			R, err = ke.InitKeyExchange(rd, hidKex)
 		}
